@@ -37,13 +37,17 @@ prop("C07",
      level_text="the structure invariant (levels, root, per-deme level/index/id/class/start, parent<->child symmetry through ghost indices) is "
                 "proved to be established by DemeTree.__init__ and preserved by _do_sprout (nested loop invariants), run_sprout, run_metaepoch, "
                 "run_step and run; seed identity (the seed of a new deme is a candidate of its parent) is a postcondition of _do_sprout; "
-                "child ids come from _next_child_id (mk_id over the level size, hence unique per level; id depth = level)",
-     level_note="deme constructors enter through the abstract constructor contract (ext.$DemeCtor): the concrete __init__ bodies of the seven "
-                "deme classes are numeric (sampling) and are assumed to refine it; f-string ids modelled as a free term algebra; "
-                "user class table keys disjoint from the built-in table; " + MODEL_NOTE,
-     assumptions=["id strings are injective in (parent id, index) - free-algebra model of str()/f-strings"],
-     undecided_subclauses=["'population-based children contain the seed in their initial population' is a clause of the concrete deme "
-                           "constructors (sampling code): assumed through the abstract constructor contract, not proved"])
+                "child ids come from _next_child_id (mk_id over the level size, hence unique per level; id depth = level); "
+                "AbstractDeme.__init__ and the constructors of all seven deme classes are proved to establish exactly the abstract "
+                "constructor contract (ext.$DemeCtor) the tree relies on, and the SEA / DE / SHADE constructors to put an individual with "
+                "the seed's genome into the initial population; the candidates get_seeds returns are individuals of their deme's current "
+                "population (generator contract + only-removes filters)",
+     level_note="the sampling closures (sample_uniform / sample_normal), engine factories and third-party constructors (cma, qmc) enter the "
+                "constructors through trusted contracts; f-string ids modelled as a free term algebra; user class table keys disjoint from "
+                "the built-in table; " + MODEL_NOTE,
+     assumptions=["id strings are injective in (parent id, index) - free-algebra model of str()/f-strings",
+                  "level configurations are sane: pop_size >= 1, generations >= 1, a seed for CMA-ES / local-search levels"],
+     undecided_subclauses=[])
 
 prop("C18",
      level_text="run_sprout: for every deme that was an active non-leaf when the round began, hibernating == (no sprout taken from it), demes "
@@ -63,28 +67,32 @@ prop("C05",
      level_note="user-defined stop conditions are assumed to satisfy the abstract contract (pure verdict); the stability lemma 'a true verdict "
                 "stays true under Step' is argued in DESIGN.md and not mechanised; " + MODEL_NOTE,
      assumptions=[], undecided_subclauses=["stability of verdicts under further evaluation (per shipped condition) is a paper argument",
-                                           "NoActiveNonrootDemes / FitnessEvalLimitReached verdict clauses are not under contract"])
+                                           "FitnessEvalLimitReached / FitnessSteadiness verdict clauses are not under contract"])
 
 prop("C06",
      level_text="abstract AbstractDeme.run_metaepoch contract (one more history entry, recorded entries kept, active == not(gsc or lsc or "
                 "engine stop), frame = own fields/own history/own wrapper) refined by the EA/DE/SHADE demes; DemeTree.run_metaepoch: every "
                 "deme that was active and not hibernating advances by exactly one entry, every other deme is untouched, stopping is final; "
                 "run_step: freshly sprouted demes have history length 1 (they run from the next metaepoch)",
-     level_note="CMA/LHS/Sobol/local demes: see coverage.functions_under_contract for which are proved; " + MODEL_NOTE,
+     level_note="all seven deme classes (EA, DE, SHADE, CMA-ES, LHS, Sobol, local search) are proved to refine the abstract contract; each does so "
+                "under its class invariant, which its constructor is proved to establish and its run_metaepoch to keep (that nothing else breaks "
+                "it between the two is a framing argument on paper); scipy.optimize.minimize and cma enter through interface contracts; " + MODEL_NOTE,
      assumptions=[], undecided_subclauses=[])
 
 prop("C11",
      level_text="call-site obligation in every population deme: the parents handed to the engine are the previous generation (the last list "
                 "appended in this metaepoch, or the current population for the first); engine contract: every returned individual equals a "
                 "parent (genome and fitness) or was evaluated after the call began",
-     level_note="the engine contracts (BaseSEA.run, DE.run, SHADE.run) are assumed at this level and verified with the population/operator "
-                "contracts; " + MODEL_NOTE,
+     level_note="the engine contracts (BaseSEA.run abstract, DE.run / SHADE.run trusted) are assumed; for CMA-ES the call-site obligation is "
+                "'tell() is given exactly the genomes and (direction-adjusted) fitness values of the previous generation'; " + MODEL_NOTE,
      assumptions=[], undecided_subclauses=[])
 
 prop("C03",
      level_text="wrapper counters (C16 laws), DemeTree.n_evaluations == sum over all demes of the deme's own wrapper count, eval-limit verdicts "
                 "over that sum, per-deme count >= ghost clock increments through every engine iteration (clock = objective invocations)",
-     level_note="exact equality 'count == invocations' additionally needs 'no cutoff wrapper has refused', carried as Transparent(); " + MODEL_NOTE,
+     level_note="exact equality 'count == invocations' additionally needs 'no cutoff wrapper has refused', carried as Transparent(); the local "
+                "optimiser is covered through a client-loop model of scipy.optimize.minimize (it only calls fun and the callback; nfev is the "
+                "number of fun calls - trusted): the deme's own counter is proved equal to its wrapper's; " + MODEL_NOTE,
      assumptions=[ORDER_TIER], undecided_subclauses=["minimize().nfev: see hms contracts"])
 
 prop("C04",
@@ -142,15 +150,32 @@ prop("C08", level="other",
      level_text="the counting bound of LevelLimit needs multiset lemmas (count under permutation / concatenation) that E-matching cannot "
                 "discharge: bounded stand-in", level_note=BOUNDED_NOTE, assumptions=[], undecided_subclauses=["the global invariant count_active(level) <= L is not mechanised"],
      bounded_parts=["battery::C08", "bounded::C08"])
-prop("C09", level="exploration",
-     level_text="bounded: FarEnough / NBC_FarEnough on random sibling layouts (thresholds hit exactly, active / inactive siblings); centroid == mean "
-                "of the current population for every deme at every metaepoch boundary of the scenario battery", level_note=BOUNDED_NOTE,
-     assumptions=[], undecided_subclauses=[], bounded_parts=["battery::C09", "bounded::C09"])
-prop("C10", level="exploration",
-     level_text="bounded: DemeLimit / LevelLimit / SkipSameSprout / BestPerDeme / NBC_Generator on exhaustively enumerated small candidate sets "
-                "(sizes, orderings, ties, limits, occupancy, both directions)", level_note=BOUNDED_NOTE + "; the abstract filter contracts "
-                "(only removes) are stated in contracts/f10_sprout.py but the shipped filters are not proved against them",
-     assumptions=[], undecided_subclauses=["composition order of filters"], bounded_parts=["bounded::C10"])
+prop("C09", level="other",
+     explanation="proved: AbstractDeme.centroid returns the mean of the deme's *current* population on every call (no stale value; numpy.mean "
+                 "enters as the uninterpreted function MEANG of the population). bounded: the distance clause - FarEnough / NBC_FarEnough on random "
+                 "sibling layouts (thresholds hit exactly, active / inactive siblings); centroid == mean for every deme at every metaepoch "
+                 "boundary of the scenario battery.",
+     level_text="centroid accessor proved; the distance clause needs the position of a deme in the filtered sibling list, which E-matching does "
+                "not find through the comprehension: bounded stand-in", level_note=BOUNDED_NOTE,
+     assumptions=["numpy.mean / numpy.linalg.norm are deterministic functions of their arguments"],
+     undecided_subclauses=["every accepted sprout is farther than the threshold from every considered deme (stated, not discharged)"],
+     bounded_parts=["battery::C09", "bounded::C09"])
+prop("C10", level="other",
+     explanation="proved: the abstract generator contract (candidates only from the current populations of active non-leaf demes of the tree) "
+                 "refined by BestPerDeme (exactly one candidate per deme: a member of the current population that no member beats, in the "
+                 "problem's direction) and NBC_Generator; the abstract filter contract 'only removes' (same dictionary, same records, every kept "
+                 "individual was a candidate of the same deme) refined by DemeLimit (which also keeps exactly min(limit, available)), "
+                 "LevelLimit, FarEnough and NBC_FarEnough; SproutMechanism.get_seeds / apply_deme_filters / apply_tree_filters for any chain of "
+                 "filters (loop invariants), with every returned entry non-empty and every returned candidate from its deme's current "
+                 "population (lemmas at the return statement). bounded: 'no dropped candidate is better than a kept one' for DemeLimit / "
+                 "LevelLimit, LevelLimit filling exactly the free slots, SkipSameSprout, on exhaustively enumerated small candidate sets.",
+     level_text="generators, filter chains and the only-removes part of four filters proved; the keep-the-best and counting clauses need "
+                "permutation / counting lemmas (induction): bounded stand-in", level_note=BOUNDED_NOTE,
+     assumptions=["NearestBetterClustering.cluster returns individuals of the clustered population (trusted; C15 is checked separately)",
+                  "populated demes: every deme's current population is non-empty (class invariant of the deme classes)"],
+     undecided_subclauses=["keep-the-best for DemeLimit / LevelLimit", "LevelLimit fills exactly the free slots", "SkipSameSprout (NumPy)",
+                           "NBCGeneratorWithLocalMethod is not under contract"],
+     bounded_parts=["bounded::C10"])
 prop("C12", level="other",
      explanation="proved: every population deme hands the previous generation to its engine (call-site obligation, shared with C11); engine "
                  "contract: same size. bounded: DE / SHADE / SEA engines on random objective tables (best and k-th best never worse, size), "
